@@ -368,3 +368,197 @@ Proof.
   apply In_nth with (d := 0) in A as [k [Hk Ek]]. destruct (N k Hk) as [B1 B2].
   apply B. rewrite <- Ek, <- B2. apply nth_In; assumption.
 Qed.
+
+(* ------------------------------------------------------------------------------------------
+   Additions (C17 review follow-up).  Nothing above is changed.
+   ------------------------------------------------------------------------------------------ *)
+
+(* ---------- restrict_seq (both input paths) ---------- *)
+Lemma restrict_seq_ok aslist n qs ps : (forall q, In q qs -> q < n) ->
+  restrict_seq aslist n qs ps = Ok (map (restrict1 qs) ps).
+Proof.
+  intros H. unfold restrict_seq. destruct aslist; [destruct ps as [|p r]|]; try reflexivity;
+    now apply restrict_ok.
+Qed.
+
+Lemma restrict_seq_crash aslist n qs ps : (exists q, In q qs /\ n <= q) ->
+  aslist = false \/ ps <> [] -> restrict_seq aslist n qs ps = Crashed.
+Proof.
+  intros H [->|NE]; unfold restrict_seq; [now apply restrict_crash|].
+  destruct aslist; [destruct ps as [|p r]; [congruence|]|]; now apply restrict_crash.
+Qed.
+
+Lemma restrict_seq_empty_list n qs : restrict_seq true n qs [] = Ok [].
+Proof. reflexivity. Qed.
+
+Lemma restrict_dec n qs ps :
+  (restrict n qs ps = Ok (map (restrict1 qs) ps) /\ forall q, In q qs -> q < n) \/
+  (restrict n qs ps = Crashed /\ exists q, In q qs /\ n <= q).
+Proof.
+  unfold restrict. destruct (forallb (fun q => q <? n) qs) eqn:E.
+  - left; split; [reflexivity|]. intros q Hq. rewrite forallb_forall in E. apply Nat.ltb_lt; auto.
+  - right; split; [reflexivity|].
+    assert (X : existsb (fun q => negb (q <? n)) qs = true).
+    { clear -E. induction qs as [|q r IH]; simpl in *; [discriminate|].
+      destruct (q <? n); simpl in *; auto. }
+    apply existsb_exists in X as [q [Hq Hn]]. exists q; split; [assumption|].
+    apply negb_true_iff, Nat.ltb_ge in Hn. exact Hn.
+Qed.
+
+Lemma restrict_seq_never_refused aslist n qs ps : restrict_seq aslist n qs ps <> Refused.
+Proof.
+  assert (X : forall ps0, restrict n qs ps0 <> Refused).
+  { intros ps0. destruct (restrict_dec n qs ps0) as [[-> _]|[-> _]]; discriminate. }
+  unfold restrict_seq. destruct aslist; [destruct ps as [|p r]; [discriminate|]|]; apply X.
+Qed.
+
+(* ---------- decompose_call ---------- *)
+Lemma decompose_groups_ok aslist n G ps :
+  (forall l qs q, In (l, qs) G -> In q qs -> q < n) ->
+  decompose_groups aslist n G ps =
+  Ok (map (fun lq => (fst lq, snd lq, map (restrict1 (snd lq)) ps)) G).
+Proof.
+  induction G as [|[l qs] r IH]; intros B; simpl; [reflexivity|].
+  rewrite restrict_seq_ok by (intros q Hq; apply (B l qs); [now left|assumption]).
+  simpl. rewrite IH; [reflexivity|]. intros l' qs' q I Hq. apply (B l' qs'); [now right|assumption].
+Qed.
+
+Lemma decompose_groups_crash aslist n G ps :
+  aslist = false \/ ps <> [] ->
+  (exists l qs q, In (l, qs) G /\ In q qs /\ n <= q) ->
+  decompose_groups aslist n G ps = Crashed.
+Proof.
+  intros HA. induction G as [|[l qs] r IH]; intros [l0 [qs0 [q [I [Hq Hn]]]]]; simpl in *; [tauto|].
+  destruct (restrict_seq aslist n qs ps) as [sub| |] eqn:E; simpl.
+  - destruct I as [I|I].
+    + inversion I; subst. rewrite restrict_seq_crash in E; [discriminate|eauto|assumption].
+    + rewrite IH; [reflexivity|]. exists l0, qs0, q; auto.
+  - exfalso. exact (restrict_seq_never_refused _ _ _ _ E).
+  - reflexivity.
+Qed.
+
+Lemma decompose_call_ok aslist n labels ps : length labels <= n ->
+  decompose_call aslist n labels ps = Ok (decompose_observables labels ps).
+Proof.
+  intros L. unfold decompose_call, decompose_observables. apply decompose_groups_ok.
+  destruct (qubits_by_subsystem_spec labels) as [_ [CH _]].
+  intros l qs q I Hq. destruct (CH _ _ I) as [-> _]. apply members_in in Hq. lia.
+Qed.
+
+Lemma decompose_call_crash aslist n labels ps : n < length labels ->
+  aslist = false \/ ps <> [] -> decompose_call aslist n labels ps = Crashed.
+Proof.
+  intros L HA. unfold decompose_call. apply decompose_groups_crash; [assumption|].
+  destruct (qubits_by_subsystem_spec labels) as [_ [CH CV]].
+  specialize (CV n L). apply in_map_iff in CV as [[l qs] [E I]]. simpl in E.
+  exists l, qs, n. split; [assumption|]. split; [|lia].
+  destruct (CH _ _ I) as [-> _]. apply members_in. split; [assumption|now symmetry].
+Qed.
+
+Lemma decompose_call_empty_list n labels :
+  decompose_call true n labels [] = Ok (decompose_observables labels []).
+Proof.
+  unfold decompose_call, decompose_observables.
+  induction (qubits_by_subsystem labels) as [|[l qs] r IH]; simpl; [reflexivity|].
+  now rewrite IH.
+Qed.
+
+Lemma decompose_call_never_refused aslist n labels ps : decompose_call aslist n labels ps <> Refused.
+Proof.
+  unfold decompose_call. induction (qubits_by_subsystem labels) as [|[l qs] r IH]; simpl; [discriminate|].
+  destruct (restrict_seq aslist n qs ps) as [sub| |] eqn:E; simpl.
+  - destruct (decompose_groups aslist n r ps); simpl; [discriminate|congruence|discriminate].
+  - exfalso. exact (restrict_seq_never_refused _ _ _ _ E).
+  - discriminate.
+Qed.
+
+(* ---------- expand: totality and the reason of a refusal ---------- *)
+Lemma first_missing_find_all oq fq i :
+  first_missing oq fq i = None <-> exists m, find_all oq fq = Some m.
+Proof.
+  revert i; induction oq as [|q r IH]; intros i; simpl.
+  - split; [eauto|reflexivity].
+  - destruct (index_of q fq) as [j|].
+    + rewrite IH. split; intros [m Hm].
+      * rewrite Hm; simpl; eauto.
+      * destruct (find_all r fq) as [m'|]; [eauto|discriminate].
+    + split; [discriminate|intros [m Hm]; discriminate].
+Qed.
+
+Lemma first_missing_Some oq fq i k : first_missing oq fq i = Some k ->
+  i <= k /\ k - i < length oq /\ ~ In (nth (k - i) oq 0) fq /\
+  forall j, j < k - i -> In (nth j oq 0) fq.
+Proof.
+  revert i; induction oq as [|q r IH]; intros i; simpl; [discriminate|].
+  destruct (index_of q fq) as [j|] eqn:E.
+  - intros H. destruct (IH _ H) as [A [B [C D]]].
+    assert (X : k - i = S (k - S i)) by lia. rewrite X.
+    split; [lia|]. split; [lia|]. split; [exact C|].
+    intros [|j'] Hj; [apply index_of_Some in E as [E1 E2]; rewrite <- E2; now apply nth_In|].
+    apply D; lia.
+  - intros H; inversion H; subst. rewrite Nat.sub_diag.
+    split; [lia|]. split; [lia|]. split; [now apply index_of_None|]. intros; lia.
+Qed.
+
+Lemma expand_never_crashes nobs oq fq ps : expand nobs oq fq ps <> Crashed.
+Proof.
+  unfold expand. destruct (negb _); [discriminate|]. destruct (find_all oq fq); discriminate.
+Qed.
+
+Lemma find_all_incl oq fq m : find_all oq fq = Some m -> incl oq fq.
+Proof.
+  intros H q Hq. destruct (find_all_Some _ _ _ H) as [_ N].
+  apply In_nth with (d := 0) in Hq as [k [Hk <-]]. destruct (N k Hk) as [A <-]. now apply nth_In.
+Qed.
+
+Lemma expand_ok_iff nobs oq fq ps :
+  (exists out, expand nobs oq fq ps = Ok out) <-> nobs = length oq /\ incl oq fq.
+Proof.
+  unfold expand. destruct (Nat.eqb_spec nobs (length oq)) as [E|N]; simpl.
+  - destruct (find_all oq fq) as [m|] eqn:F.
+    + split; [intros _; split; [assumption|eapply find_all_incl; eassumption]|eauto].
+    + split; [intros [out H]; discriminate|].
+      intros [_ I]. destruct (find_all_total _ _ I) as [m Hm]. congruence.
+  - split; [intros [out H]; discriminate|tauto].
+Qed.
+
+Lemma expand_refused_iff nobs oq fq ps :
+  expand nobs oq fq ps = Refused <-> expand_refusal nobs oq fq <> None.
+Proof.
+  unfold expand, expand_refusal. destruct (negb _); [split; [discriminate|reflexivity]|].
+  destruct (find_all oq fq) as [m|] eqn:F.
+  - assert (X : first_missing oq fq 0 = None) by (apply first_missing_find_all; eauto).
+    rewrite X; simpl. split; [discriminate|congruence].
+  - destruct (first_missing oq fq 0) as [k|] eqn:M; simpl.
+    + split; [discriminate|reflexivity].
+    + apply first_missing_find_all in M as [m Hm]. congruence.
+Qed.
+
+Lemma expand_refusal_count nobs oq fq a b : expand_refusal nobs oq fq = Some (RCount a b) ->
+  nobs <> length oq /\ a = nobs /\ b = length oq.
+Proof.
+  unfold expand_refusal. destruct (Nat.eqb_spec nobs (length oq)) as [E|N]; simpl.
+  - destruct (first_missing oq fq 0); simpl; discriminate.
+  - intros H; inversion H; subst; auto.
+Qed.
+
+Lemma expand_refusal_missing nobs oq fq i : expand_refusal nobs oq fq = Some (RMissing i) ->
+  nobs = length oq /\ i < length oq /\ ~ In (nth i oq 0) fq /\ forall j, j < i -> In (nth j oq 0) fq.
+Proof.
+  unfold expand_refusal. destruct (Nat.eqb_spec nobs (length oq)) as [E|N]; simpl; [|discriminate].
+  destruct (first_missing oq fq 0) as [k|] eqn:M; simpl; [|discriminate].
+  intros H; inversion H; subst. apply first_missing_Some in M. rewrite Nat.sub_0_r in M.
+  destruct M as [_ [A [B C]]]. auto.
+Qed.
+
+Lemma expand_refusal_none nobs oq fq :
+  expand_refusal nobs oq fq = None <-> nobs = length oq /\ incl oq fq.
+Proof.
+  unfold expand_refusal. destruct (Nat.eqb_spec nobs (length oq)) as [E|N]; simpl.
+  - destruct (first_missing oq fq 0) as [k|] eqn:M; simpl.
+    + split; [discriminate|]. intros [_ I]. destruct (find_all_total _ _ I) as [m Hm].
+      assert (X : first_missing oq fq 0 = None) by (apply first_missing_find_all; eauto). congruence.
+    + split; [|reflexivity]. intros _. split; [assumption|].
+      apply first_missing_find_all in M as [m Hm]. eapply find_all_incl; eassumption.
+  - split; [discriminate|tauto].
+Qed.
